@@ -105,6 +105,14 @@ def check(ctx):
     import c01
     npol = core.adopt(ctx, c01, lambda o: o["rule"] == "C01.b" and ("schedule_removal_reactions" in o["key"] or "schedule_despawn_reactions" in o["key"]), "C11.polled")
     ctx.floor("C11.polled", npol, 8, "shared polled-scheduler obligations (C01.b)")
+    # ... and what an aborted command's cleanup releases is collected and polled in the same tree (shared with C08.e)
+    import c08 as _c08
+    npol2 = core.adopt(ctx, _c08, lambda o: o["rule"] == "C08.e" and ("abort-helper:" in o["key"] or "runner:" in o["key"]), "C11.polled")
+    ctx.floor("C11.polled", npol2, 3, "shared poll-coverage obligations (C08.e)")
+    # no event payload outlives its tree: the reader count equals the number of commands queued (shared with C05.a / C05.b)
+    import c05 as _c05b
+    npay = core.adopt(ctx, _c05b, lambda o: o["rule"] in ("C05.a", "C05.b"), "C11.payload")
+    ctx.floor("C11.payload", npay, 4, "shared reader-count obligations (C05.a/b)")
 
     # ---- reacting flags ----
     n = core.adopt(ctx, c04, lambda o: o["rule"] in ("C04.a", "C04.b"), "C11.flags")
